@@ -55,6 +55,7 @@ def case(ctx, rng, idx, state):
     Ef = np.linspace(emin + 0.15 * (emax - emin), emax - 0.15 * (emax - emin), nEf) + rng.uniform(0, 1e-2)
     omega = np.linspace(0.1, 0.8 * (emax - emin), 4)
     calcs = runkit.big_basket(rng, wb, system, Ef, omega)
+    ctx.count('calculator_options_' + ('+'.join(sorted(runkit.big_basket.last_options)) or 'default'))
     twins = runkit.raw_twins(calcs)
     calcs_run = dict(calcs, **twins)
     # ---- tie guard: energies on the grid vs Fermi-bin edges of the finite-difference calculators ----
